@@ -9,9 +9,10 @@
 """
 import collections
 import itertools
+import os
 import sys
 
-from mc import harness, snapshot
+from mc import harness, readermachine, snapshot
 from mc.core import Part
 from mc.models import fixedspec
 
@@ -79,17 +80,35 @@ def run_reader(text, widths, delimiter, at_end):
         return "foreign:" + type(error).__name__, [list(r) for r in rows], repr(error)
 
 
+def run_reader_path(text, widths, delimiter):
+    """The same reading with the input stored in a file that fixed_rows opens itself (source given as a path)."""
+    m = harness.modules()
+    path = os.path.join(readermachine.tmpdir(), "fixed.txt")
+    with open(path, "w", newline="", encoding="utf-8") as stream:
+        stream.write(text)
+    rows = []
+    try:
+        for row in m["rowio"].fixed_rows(path, "utf-8", [("f%d" % i, w) for i, w in enumerate(widths)], delimiter):
+            rows.append(row)
+        return "ok", [list(r) for r in rows], None
+    except m["errors"].DataFormatError as error:
+        return "error", [list(r) for r in rows], str(error)
+    except Exception as error:
+        return "foreign:" + type(error).__name__, [list(r) for r in rows], repr(error)
+
+
 def delimiter_name(delimiter):
     return {"any": "any", "\n": "lf", "\r": "cr", "\r\n": "crlf", None: "none"}[delimiter]
 
 
-def judge_complete(text, widths, delimiter, part, case=None):
+def judge_complete(text, widths, delimiter, part, case=None, via_path=False):
     """Judge one complete input by the statement. -> outcome kind"""
-    kind, rows, detail = run_reader(text, widths, delimiter, True)
+    via_path = via_path or bool(case and case.get("via_path"))
+    kind, rows, detail = run_reader_path(text, widths, delimiter) if via_path else run_reader(text, widths, delimiter, True)
     part.transitions += 1
     part.validated += 1
-    tag = "%s|%%s" % delimiter_name(delimiter)
-    case = case or {"text": text, "widths": list(widths), "delimiter": delimiter}
+    tag = "%s|%s%%s" % (delimiter_name(delimiter), "file-opened-by-the-reader:" if via_path else "")
+    case = case or {"text": text, "widths": list(widths), "delimiter": delimiter, "via_path": via_path}
     total = sum(widths)
     if kind == "ok":
         if not fixedspec.rows_reproduce(text, widths, delimiter, rows):
@@ -108,14 +127,15 @@ def judge(case, part):
 
 
 def enumerate_strings(item):
-    widths, delimiter, max_length, alphabet = item
+    widths, delimiter, max_length, alphabet = item[:4]
+    via_path = len(item) > 4 and item[4]
     part = Part()
     total = sum(widths)
     outcomes = collections.Counter()
     for length in range(0, max_length + 1):
         for letters in itertools.product(alphabet, repeat=length):
             text = "".join(letters)
-            kind = judge_complete(text, widths, delimiter, part)
+            kind = judge_complete(text, widths, delimiter, part, via_path=via_path)
             outcomes[kind] += 1
             part.evaluations += 1
     part.nontrivial += outcomes["error"] + outcomes["ok"]
@@ -223,6 +243,10 @@ def run(ctx):
     items = [(widths, delimiter, max_length, "ab\r\n") for widths in width_lists(ctx.tier) for delimiter in DELIMITERS]
     items.sort(key=lambda i: sum(i[0]))
     ctx.pmap(MOD, "enumerate_strings", items, label="C13 enumeration")
+    # the same through files the reader opens itself (path source): shorter strings, a few width lists
+    path_length = 5 if quick else 7
+    path_items = [(widths, delimiter, path_length, "ab\r\n", True) for widths in ([1], [2], [1, 2], [2, 1, 1]) for delimiter in DELIMITERS]
+    ctx.pmap(MOD, "enumerate_strings", path_items, label="C13 enumeration through files")
     fix_lists = [[1], [2], [1, 1], [2, 1], [1, 2], [3], [1, 1, 1], [2, 2], [3, 1], [1, 3], [1, 2, 1], [2, 1, 2], [3, 3]] if quick else width_lists("thorough")
     fix_items = []
     for widths in fix_lists:
@@ -236,6 +260,7 @@ def run(ctx):
     ctx.exhaustive = "fixpoint search capped" not in ctx.total.notes
     ctx.bound = {"bounded enumeration": "all strings over {a,b,CR,LF} up to length %d x %d width lists x 5 delimiter settings" % (max_length, len(width_lists(ctx.tier))),
                  "fixpoint search": "%d (width list, delimiter) configurations explored to the fixpoint of the product (reader frame state x specification automata): all inputs of every length over the alphabet ({a,CR,LF} when the record is wider than %d)" % (len(fix_items), 4 if quick else 6)}
+    ctx.bound["files opened by the reader"] = "all strings up to length %d x 4 width lists x 5 delimiter settings stored in a file and read through its path" % path_length
     ctx.bound["single-character mutations"] = "%d (width list, delimiter, record count) files: every deletion, insertion and replacement (x, CR, LF, blank) at every offset, with and without the final delimiter" % len(mutation_items)
     ctx.rule = ("(1) plain enumeration; (3) every single-character mutation of longer well-formed files; (2) BFS over input prefixes, one character at a time, state = snapshot of the fixed_rows generator frame at the blocked read (call-site lines, "
                 "all locals but message-only ones, push-back, unconsumed characters) x greedy and canonical specification states; every visited prefix is also judged as a complete "
